@@ -29,7 +29,10 @@ func Replay(c *core.Ctx) int {
 	case "c10":
 		u.RunPairsC10(hist, rf.Alphabet, tw)
 	case "c13":
+		C13NoPeriodicSave = rf.Plan.NoSave
+		restore := SetC13SaveMode()
 		u.RunTwinsC13(hist, rf.Alphabet, tw)
+		restore()
 	default:
 		u.RunTrie(hist, rf.Alphabet, 16, tw)
 	}
